@@ -230,7 +230,8 @@ fn rotate(
         _ => false, // Only case that can actually happen is (None, None)
     };
 
-    for i in (base..base + count - 1).rev() {
+    // `count` is at least 1 here; `base + (count - 1)` is the highest index and was checked by the builder
+    for i in (base..base + (count - 1)).rev() {
         let src = expand_env_vars(pattern.replace("{}", &i.to_string()));
         let dst = expand_env_vars(pattern.replace("{}", &(i + 1).to_string()));
 
@@ -286,6 +287,10 @@ impl FixedWindowRollerBuilder {
             // Hide {} in this error message from the formatting machinery in bail macro
             let msg = "pattern does not contain `{}`";
             bail!(msg);
+        }
+
+        if count > 0 && self.base.checked_add(count - 1).is_none() {
+            bail!("base {} with count {} exceeds the range of archive indices", self.base, count);
         }
 
         let compression = match Path::new(pattern).extension() {
